@@ -25,13 +25,22 @@ func TestMain(m *testing.M) { evid.Main(m, "C13") }
 
 // Case is the replayable unit.
 //
+//	wseq      : Seq (message headers and values of any type, in any order, several messages) rendered on one Writer vs the concatenated thriftspec bytes
 //	writer    : Msg? + Tree rendered through the library's Writer methods (struct encoder's calling convention) vs thriftspec bytes
 //	marshal   : Marshal(P, Build(T,V)) vs thriftspec encoding of the logical content read off the value
 //	readers   : thriftspec encoding of Msg? + Tree (wire order as stored, long forms per Long, header form HdrP) read back through the library's Reader methods
 //	unmarshal : thriftspec encoding of Build(T,V)'s content with fields rotated/reversed and long forms per Long, given to Unmarshal
+//
+// SeqItem is one element of a Writer call sequence: a message header or a value.
+type SeqItem struct {
+	Msg *thriftspec.Message `json:"msg,omitempty"`
+	Val *thriftspec.Value   `json:"val,omitempty"`
+}
+
 type Case struct {
 	Kind string              `json:"kind"`
-	P    int                 `json:"p"` // 0 binary strict, 1 binary non-strict, 2 compact
+	Seq  []SeqItem           `json:"seq,omitempty"` // wseq: items written one after the other on ONE Writer
+	P    int                 `json:"p"`             // 0 binary strict, 1 binary non-strict, 2 compact
 	Msg  *thriftspec.Message `json:"msg,omitempty"`
 	Tree *thriftspec.Value   `json:"tree,omitempty"`
 	Long []bool              `json:"long,omitempty"`
@@ -221,6 +230,37 @@ func checkCase(c Case, D thriftspec.Dialect) result {
 			return compareBytes("bytes written by the "+p.String()+" Writer == specification bytes for the same content", r.Buf.Bytes(),
 				func(d thriftspec.Dialect) []byte { return encodeAll(p, p, d, c.Msg, c.Tree, nil) }, D)
 		})
+	case "wseq":
+		if len(c.Seq) == 0 {
+			return result{fail: &evid.Failure{Oracle: "harness", Observed: "wseq case without items"}}
+		}
+		return guard("Writer methods (sequence on one Writer)", func() result {
+			r := tgen.NewRenderer(proto(c.P))
+			for i, it := range c.Seq {
+				var err error
+				switch {
+				case it.Msg != nil:
+					err = r.Message(*it.Msg)
+				case it.Val != nil:
+					err = r.Value(*it.Val)
+				}
+				if err != nil {
+					return result{fail: &evid.Failure{Oracle: fmt.Sprintf("Writer methods succeed (item %d)", i), Observed: err.Error(), Expected: "nil error", Class: "write-error"}}
+				}
+			}
+			return compareBytes("bytes written by one "+p.String()+" Writer for a sequence of messages and values == concatenated specification bytes", r.Buf.Bytes(),
+				func(d thriftspec.Dialect) []byte {
+					e := thriftspec.Encoder{P: p, D: d}
+					for _, it := range c.Seq {
+						if it.Msg != nil {
+							e.Message(*it.Msg)
+						} else if it.Val != nil {
+							e.Value(*it.Val)
+						}
+					}
+					return e.Buf
+				}, D)
+		})
 	case "marshal":
 		if c.T == nil || c.V == nil {
 			return result{fail: &evid.Failure{Oracle: "harness", Observed: "marshal case without type/value"}}
@@ -348,11 +388,42 @@ func genMsg(t *rapid.T) *thriftspec.Message {
 	}
 }
 
+func genMsg2(t *rapid.T) thriftspec.Message {
+	return thriftspec.Message{
+		Type:  rapid.IntRange(1, 4).Draw(t, "mtype"),
+		Name:  rapid.SampledFrom([]string{"", "a", "ping", "Hello", "getStruct_v2"}).Draw(t, "mname"),
+		SeqID: rapid.SampledFrom([]int32{0, 1, 127, 300, 16384, 0x123456, 0x12345678, 1<<31 - 1}).Draw(t, "seq"),
+	}
+}
+
 func genCase(t *rapid.T, o *tgen.Opts) Case {
 	c := Case{P: rapid.SampledFrom([]int{0, 1, 2, 2}).Draw(t, "p")}
-	kind := rapid.SampledFrom([]string{"writer", "writer", "writer", "marshal", "marshal", "marshal", "readers", "readers", "unmarshal", "unmarshal"}).Draw(t, "kind")
+	kind := rapid.SampledFrom([]string{"writer", "writer", "wseq", "wseq", "marshal", "marshal", "marshal", "readers", "readers", "unmarshal", "unmarshal"}).Draw(t, "kind")
 	c.Kind = kind
 	switch kind {
+	case "wseq":
+		// 2..7 items on one Writer; at least one message header follows another write
+		n := rapid.IntRange(2, 7).Draw(t, "nitems")
+		for i := 0; i < n; i++ {
+			var it SeqItem
+			k := rapid.IntRange(0, 9).Draw(t, "item")
+			if i == n-1 && n >= 2 {
+				k = 0 // the last item is a message header: it always follows other writes
+			}
+			switch {
+			case k < 4:
+				m := genMsg2(t)
+				it.Msg = &m
+			case k < 8:
+				v := tgen.GenDirtyScalar(t)
+				it.Val = &v
+			default:
+				budget := rapid.SampledFrom([]int{3, 10, 30}).Draw(t, "budget")
+				v := tgen.GenTree(t, tgen.GenTreeType(t, 2), 2, &budget)
+				it.Val = &v
+			}
+			c.Seq = append(c.Seq, it)
+		}
 	case "writer", "readers":
 		c.Msg = genMsg(t)
 		budget := rapid.SampledFrom([]int{6, 20, 60, 200}).Draw(t, "budget")
@@ -379,6 +450,15 @@ func genCase(t *rapid.T, o *tgen.Opts) Case {
 }
 
 func caseTree(c Case) thriftspec.Value {
+	if c.Kind == "wseq" { // a pseudo list of the values, for the clause statistics
+		out := thriftspec.Value{T: thriftspec.List}
+		for _, it := range c.Seq {
+			if it.Val != nil {
+				out.Elems = append(out.Elems, *it.Val)
+			}
+		}
+		return out
+	}
 	if c.Tree != nil {
 		return *c.Tree
 	}
@@ -399,6 +479,41 @@ func account(c Case) {
 	for t, n := range st.Types {
 		if n > 0 && t != 0 {
 			evid.Label(pn + ".type-id." + thriftspec.T(t).String())
+		}
+	}
+	if c.Kind == "wseq" {
+		msgs, afterWrite, afterDirty, consecutive := 0, 0, 0, 0
+		for i, it := range c.Seq {
+			if it.Msg == nil {
+				continue
+			}
+			msgs++
+			if i > 0 {
+				afterWrite++
+				if c.Seq[i-1].Msg != nil {
+					consecutive++
+				} else if v := c.Seq[i-1].Val; v != nil && (v.T == thriftspec.I32 || v.T == thriftspec.I64 || v.T == thriftspec.Double || v.T == thriftspec.String && len(v.S) >= 256) {
+					afterDirty++
+				}
+			}
+		}
+		evid.Label("wseq." + p.String())
+		if afterWrite > 0 {
+			evid.Label("wseq.message-after-other-writes." + p.String())
+		}
+		if afterDirty > 0 {
+			evid.Label("wseq.message-after->=4-byte-write-with-nonzero-bytes." + p.String())
+		}
+		if consecutive > 0 {
+			evid.Label("wseq.consecutive-messages." + p.String())
+		}
+		if msgs >= 2 {
+			evid.Label("wseq.messages>=2")
+		}
+		for _, it := range c.Seq {
+			if it.Val != nil && it.Val.T == thriftspec.String && len(it.Val.S) >= 65536 {
+				evid.Label("wseq.string-length>=65536")
+			}
 		}
 	}
 	if c.Msg != nil {
@@ -464,7 +579,7 @@ func account(c Case) {
 			evid.Label("alt.non-ascending-field-order")
 		}
 	}
-	if st.Containers >= 1 || st.Fields >= 3 {
+	if st.Containers >= 1 || st.Fields >= 3 || len(c.Seq) >= 3 {
 		b, _ := json.Marshal(c)
 		evid.NonTrivial(evid.Hash(b))
 		evid.Label("nontrivial")
